@@ -1,2 +1,101 @@
-use anyhow::{bail, Result};
-pub fn table(_out: &str) -> Result<()> { bail!("todo") }
+//! C04: observations of the real slot-joining code for specs/abi/SlotJoin.tla:
+//!  * the Bitcast tree `abi::cast(from, to)` returns for all 49 ordered pairs (or that it panics);
+//!  * for a family of variant types, the flat classes of every case payload and of the variant.
+use crate::*;
+use serde_json::{json, Value};
+use vcommon::model::Ty;
+use wit_bindgen_core::abi::{self, Bitcast, WasmType};
+
+fn name(t: WasmType) -> &'static str {
+    match t {
+        WasmType::I32 => "I32",
+        WasmType::I64 => "I64",
+        WasmType::F32 => "F32",
+        WasmType::F64 => "F64",
+        WasmType::Pointer => "Pointer",
+        WasmType::Length => "Length",
+        WasmType::PointerOrI64 => "PointerOrI64",
+    }
+}
+
+fn tree(b: &Bitcast) -> Value {
+    match b {
+        Bitcast::Sequence(s) => json!({"op": "Sequence", "a": tree(&s[0]), "b": tree(&s[1])}),
+        Bitcast::None => json!({"op": "None"}),
+        other => json!({"op": format!("{other:?}")}),
+    }
+}
+
+pub fn table(out: &str) -> anyhow::Result<()> {
+    let mut w = NdjsonWriter::create(out)?;
+    silence_panics();
+    let all = [WasmType::I32, WasmType::I64, WasmType::F32, WasmType::F64, WasmType::Pointer, WasmType::Length, WasmType::PointerOrI64];
+    for from in all {
+        for to in all {
+            let t = match catch(move || abi::cast(from, to)) {
+                Ok(b) => tree(&b),
+                Err(_) => json!({"panic": true}),
+            };
+            w.write(&json!({"kind": "cast", "from": name(from), "to": name(to), "tree": t}))?;
+        }
+    }
+    // payload alphabet: one and two slot payloads covering every base class in slots 1 and 2
+    let p = |s: &str| Ty::Prim(s.to_string());
+    let mut pay: Vec<Ty> = vec![p("u32"), p("u64"), p("f32"), p("f64"), p("string")];
+    for a in ["u32", "u64", "f32", "f64"] {
+        for b in ["u32", "u64", "f32", "f64"] {
+            pay.push(Ty::Tuple(vec![p(a), p(b)]));
+        }
+    }
+    pay.push(Ty::Tuple(vec![p("u8"), p("string")]));
+    pay.push(Ty::List(Box::new(p("u8"))));
+    let mut shapes: Vec<Ty> = Vec::new();
+    for i in 0..pay.len() {
+        for j in i..pay.len() {
+            shapes.push(Ty::Variant(vec![Some(pay[i].clone()), Some(pay[j].clone())]));
+        }
+    }
+    // three-case shapes (PointerOrI64 absorbing further joins) on a smaller alphabet
+    let small = [p("u32"), p("u64"), p("f32"), p("f64"), p("string"), Ty::Tuple(vec![p("f32"), p("u64")]), Ty::Tuple(vec![p("u64"), p("f32")]),
+        Ty::Tuple(vec![p("u8"), p("string")]), Ty::Tuple(vec![p("u32"), p("u64")]), Ty::Tuple(vec![p("f32"), p("f64")])];
+    for a in &small {
+        for b in &small {
+            for c in &small {
+                shapes.push(Ty::Variant(vec![Some(a.clone()), Some(b.clone()), Some(c.clone())]));
+            }
+        }
+    }
+    // option / result wrappers of a few payloads (same joining code path, different constructors)
+    for a in &small {
+        shapes.push(Ty::Option(Box::new(a.clone())));
+        for b in &small {
+            shapes.push(Ty::Result(Some(Box::new(a.clone())), Some(Box::new(b.clone()))));
+        }
+    }
+    for s in shapes {
+        let cases: Vec<Option<Ty>> = match &s {
+            Ty::Variant(cs) => cs.clone(),
+            Ty::Option(t) => vec![None, Some((**t).clone())],
+            Ty::Result(a, b) => vec![a.as_deref().cloned(), b.as_deref().cloned()],
+            _ => unreachable!(),
+        };
+        let mut types = vec![s.clone()];
+        let present: Vec<Ty> = cases.iter().flatten().cloned().collect();
+        types.extend(present.iter().cloned());
+        let world = build_world(&types, &[], false)?;
+        let flat = |k: usize| -> Vec<&'static str> { abi::flat_types(&world.resolve, &world.top(k), None).unwrap().into_iter().map(name).collect() };
+        let joined = flat(0);
+        let mut case_flats: Vec<Vec<&'static str>> = Vec::new();
+        let mut k = 1;
+        for c in &cases {
+            if c.is_some() {
+                case_flats.push(flat(k));
+                k += 1;
+            } else {
+                case_flats.push(vec![]);
+            }
+        }
+        w.write(&json!({"kind": "shape", "ty": s.to_json(), "cases": case_flats, "joined": &joined[1..]}))?;
+    }
+    w.finish()
+}
